@@ -24,6 +24,8 @@ type Engine struct {
 	eventSigs map[string]*eventSig
 	closable  map[string]bool // channels closed somewhere in the program
 	ForceSafety bool // prove panic-freedom in every unit (property-level option)
+	NotAssumed  map[string]bool // obligation names of recorded findings: such a postcondition does not hold, so callers must not assume it
+	CurProp     string // the property being checked: a postcondition labelled "Cxx: ..." is an obligation of that property's check only
 	sinceCache  map[[2]string]bool
 	wantSpawn bool // eventsFor matches 'go' events instead of call/ret events
 	fieldTargets    map[string][]*ssa.Function
